@@ -620,18 +620,21 @@ class Prepared:
                     else:
                         asif = [v for v, vt in sorted(self.variants[j].items())
                                 if repr(vt) != repr(self.expected[j]) and compare(vt, got_tree) is None]
-                        key = f'wrong-{mm}' + (f'/as-if-{"+".join(asif)}' if asif else '')
-                        if re.search(r'for [^\n]* in (zip|enumerate)\(', case['src']):
-                            key += '/zip-enumerate-loop'
+                        # bucket = symptom class + option scope; finer hints go into the note
+                        key = 'wrong-' + ('value' if mm in ('value', 'inf', 'nan') else mm)
+                        hint = f'mismatch={mm}' + (f' as-if-{"+".join(asif)}' if asif else '')
                         got = show_tree(got_tree)
-                f = failing.setdefault(key, [[], got])
+                f = failing.setdefault(key, [[], got, ''])
                 f[0] += opts
+                if r[0] == 'ok' and mm is not None:
+                    f[2] = hint
             if (res.evaluations // 13) % 97 == 0:
                 res.sample(dict(base, inputs=[enc_val_list(self.inputs[j])], expected=show_tree(self.expected[j])), nt=self.nt[j])
-            for key, (opts, got) in failing.items():
+            for key, (opts, got, hint) in failing.items():
                 scope = describe_scope(opts, ran_opts)
                 c = dict(base, options=opts[:1], inputs=[enc_val_list(self.inputs[j])])
-                res.fail(f'{key}/{scope}', c, expected=show_tree(self.expected[j]), got=got, note=f'failing options: {sorted(opts)}')
+                res.fail(f'{key}/{scope}', c, expected=show_tree(self.expected[j]), got=got,
+                         note=f'{hint}; failing options: {sorted(opts)}')
 
 
 def describe_scope(failing, ran):
